@@ -88,6 +88,23 @@ def _transitions(zone):
     return out
 
 
+class NoOffset(datetime.tzinfo):
+    """A tzinfo that declines to give an offset: such a datetime is naive by
+    Python's definition and must be read as UTC."""
+
+    def utcoffset(self, dt):
+        return None
+
+    def dst(self, dt):
+        return None
+
+    def tzname(self, dt):
+        return None
+
+    def __repr__(self):
+        return 'NoOffset()'
+
+
 def build_inputs(seed, n):
     """The shared input list; identical in every configuration."""
     import zoneinfo
@@ -121,6 +138,9 @@ def build_inputs(seed, n):
         loc = base.astimezone(zobjs[zn]).replace(tzinfo=None)
         out.append(('naive-local-fields:' + zn, loc))
         out.append(('naive-utc-fields', base.replace(tzinfo=None)))
+        if len(out) % 5 == 0:
+            out.append(('tzinfo-without-offset',
+                        base.replace(tzinfo=NoOffset())))
         g = time.gmtime(t)
         out.append(('struct_time', time.struct_time(
             tuple(g[:8]) + (rnd.choice([-1, 0, 1]),))))
@@ -327,7 +347,8 @@ def gates(m, tier):
         out.append('no millisecond wire value decoded')
     for k in ('aware-utc', 'aware-zone', 'aware-fixed', 'naive-local-fields',
               'naive-utc-fields', 'struct_time', 'struct_time-local-fields',
-              'naive-gap-or-fold', 'struct_time-from-localtime'):
+              'naive-gap-or-fold', 'struct_time-from-localtime',
+              'tzinfo-without-offset'):
         if k not in m.sets.get('input_kinds', ()):
             out.append('input kind %s never exercised' % k)
     return out
